@@ -2621,3 +2621,189 @@ Proof.
   intros H. exists (gbx_expected recs). split; [now apply gb_lines_roundtrip|].
   rewrite gb_bytes_fixed_roundtrip by exact H. now rewrite gbx_expected_upper_map.
 Qed.
+
+(* ------------------------------------------------------------------ file names: (format, compression) *)
+
+Fixpoint join_dot (comps : list str) : str :=
+  match comps with
+  | [] => []
+  | [c] => c
+  | c :: t => c ++ ch_dot :: join_dot t
+  end.
+
+(** a component of a file name: non-empty, without '.' and '/' *)
+Definition ok_comp (c : str) : bool :=
+  match c with [] => false | _ => forallb (fun x => negb (x =? ch_dot) && negb (x =? ch_slash)) c end.
+
+Lemma ok_comp_props c : ok_comp c = true -> c <> [] /\ (forall x, In x c -> x <> ch_dot) /\ (forall x, In x c -> x <> ch_slash).
+Proof.
+  unfold ok_comp. destruct c as [|a t]; [discriminate|]. intros H. split; [discriminate|].
+  split; intros x Hx; pose proof (forallb_In _ _ H x Hx) as Hy; cbn in Hy; lia.
+Qed.
+
+Lemma join_dot_cons c t : t <> [] -> join_dot (c :: t) = c ++ ch_dot :: join_dot t.
+Proof. destruct t; [congruence|reflexivity]. Qed.
+
+Lemma join_dot_snoc cs b : cs <> [] -> join_dot (cs ++ [b]) = join_dot cs ++ ch_dot :: b.
+Proof.
+  induction cs as [|c cs IH]; intros H; [congruence|]. destruct cs as [|c2 cs'].
+  - reflexivity.
+  - change ((c :: c2 :: cs') ++ [b]) with (c :: (c2 :: cs') ++ [b]).
+    rewrite join_dot_cons by (destruct cs'; discriminate). rewrite IH by discriminate.
+    rewrite (join_dot_cons c (c2 :: cs')) by discriminate. now rewrite <- app_assoc.
+Qed.
+
+Lemma join_dot_chars cs x : In x (join_dot cs) -> x = ch_dot \/ exists c, In c cs /\ In x c.
+Proof.
+  induction cs as [|c cs IH]; [intros []|]. destruct cs as [|c2 cs'].
+  - cbn. intros H. right. exists c. split; [now left|exact H].
+  - rewrite join_dot_cons by discriminate. intros H. apply in_app_or in H. destruct H as [H|[<-|H]].
+    + right. exists c. split; [now left|exact H].
+    + now left.
+    + destruct (IH H) as [->|[c' [Hc' Hx]]]; [now left|]. right. exists c'. split; [now right|exact Hx].
+Qed.
+
+Lemma split_on_free x a : (forall c, In c a -> c <> x) -> split_on x a = [a].
+Proof.
+  induction a as [|c a IH]; intros H; [reflexivity|]. cbn [split_on]. rewrite IH by (intros y Hy; apply H; now right).
+  destruct (Z.eqb_spec c x) as [E|_]; [exfalso; apply (H c); [now left|exact E]|reflexivity].
+Qed.
+
+Lemma split_on_join cs : cs <> [] -> (forall c, In c cs -> ok_comp c = true) -> split_on ch_dot (join_dot cs) = cs.
+Proof.
+  induction cs as [|c cs IH]; intros Hne H; [congruence|].
+  destruct (ok_comp_props c (H c ltac:(now left))) as [_ [Hd _]].
+  destruct cs as [|c2 cs'].
+  - cbn [join_dot]. now apply split_on_free.
+  - rewrite join_dot_cons by discriminate.
+    rewrite (split_on_app_free ch_dot c _ [] (c2 :: cs')).
+    + now rewrite app_nil_r.
+    + exact Hd.
+    + cbn [split_on]. rewrite IH; [| discriminate | intros c' Hc'; apply H; now right].
+      now rewrite Z.eqb_refl.
+Qed.
+
+Lemma endswith_last s c d : endswith (s ++ [c]) [d] = (c =? d).
+Proof.
+  induction s as [|x s IH].
+  - cbn. destruct (c =? d); reflexivity.
+  - cbn [app endswith]. rewrite IH. cbn [str_eqb]. destruct (s ++ [c]) eqn:E; [destruct s; discriminate|].
+    now rewrite andb_false_r.
+Qed.
+
+Lemma split1_none x s : (forall c, In c s -> c <> x) -> split1 x s = None.
+Proof.
+  induction s as [|c s IH]; intros H; [reflexivity|]. cbn [split1].
+  destruct (Z.eqb_spec c x) as [E|_]; [exfalso; apply (H c); [now left|exact E]|].
+  now rewrite IH by (intros y Hy; apply H; now right).
+Qed.
+
+Lemma rsplit1_none x s : (forall c, In c s -> c <> x) -> rsplit1 x s = None.
+Proof. intros H. unfold rsplit1. rewrite split1_none; [reflexivity|]. intros c Hc. apply H. now apply in_rev. Qed.
+
+Lemma rsplit1_snoc x a b : (forall c, In c b -> c <> x) -> rsplit1 x (a ++ x :: b) = Some (a, b).
+Proof.
+  intros H. unfold rsplit1. rewrite rev_app_distr. cbn [rev]. rewrite <- app_assoc. cbn [app].
+  rewrite split1_app by (intros c Hc; apply H; now apply in_rev). now rewrite !rev_involutive.
+Qed.
+
+Definition ok_comps (cs : list str) : Prop := forall c, In c cs -> ok_comp c = true.
+
+Lemma join_dot_noslash cs x : ok_comps cs -> In x (join_dot cs) -> x <> ch_slash.
+Proof.
+  intros H Hx. apply join_dot_chars in Hx. destruct Hx as [->|[c [Hc Hx]]]; [discriminate|].
+  now apply (ok_comp_props c (H c Hc)).
+Qed.
+
+Lemma join_dot_ne cs : cs <> [] -> ok_comps cs -> join_dot cs <> [].
+Proof.
+  destruct cs as [|c cs]; [congruence|]. intros _ H. destruct (ok_comp_props c (H c ltac:(now left))) as [Hne _].
+  destruct cs; [exact Hne|]. rewrite join_dot_cons by discriminate. destruct c; [congruence|discriminate].
+Qed.
+
+(** the suffixes pathlib reports for a name with stem components [st] (at least one) and further components [sf] *)
+Lemma suffixes_of_name c0 rest : ok_comps (c0 :: rest) -> rest <> [] ->
+  path_name (join_dot (c0 :: rest)) = join_dot (c0 :: rest) /\
+  path_suffix (join_dot (c0 :: rest)) <> [] /\
+  path_suffixes (join_dot (c0 :: rest)) = map (fun x => ch_dot :: x) rest.
+Proof.
+  intros H Hr. set (name := join_dot (c0 :: rest)).
+  assert (Hname : path_name name = name).
+  { unfold path_name. rewrite rsplit1_none; [reflexivity|]. intros x Hx. now apply (join_dot_noslash (c0 :: rest)). }
+  split; [exact Hname|].
+  destruct (exists_last Hr) as [pre [b ->]].
+  assert (Hb : ok_comp b = true) by (apply H; right; apply in_or_app; right; now left).
+  destruct (ok_comp_props b Hb) as [Hbne [Hbd _]].
+  assert (Esn : name = join_dot (c0 :: pre) ++ ch_dot :: b).
+  { unfold name. change (c0 :: pre ++ [b]) with ((c0 :: pre) ++ [b]). apply join_dot_snoc. discriminate. }
+  split.
+  - unfold path_suffix. rewrite Esn, rsplit1_snoc by exact Hbd.
+    assert (Hpre : join_dot (c0 :: pre) <> []).
+    { apply join_dot_ne; [discriminate|]. intros c Hc. apply H. destruct Hc as [<-|Hc]; [now left|right; apply in_or_app; now left]. }
+    destruct (join_dot (c0 :: pre)); [congruence|]. destruct b; [congruence|discriminate].
+  - unfold path_suffixes.
+    assert (Hend : endswith name [ch_dot] = false).
+    { rewrite Esn. destruct (exists_last Hbne) as [b' [x Eb]]. rewrite Eb.
+      change (join_dot (c0 :: pre) ++ ch_dot :: b' ++ [x]) with (join_dot (c0 :: pre) ++ (ch_dot :: b') ++ [x]).
+      rewrite app_assoc, endswith_last. destruct (Z.eqb_spec x ch_dot) as [E|_]; [|reflexivity].
+      exfalso. apply (Hbd x); [rewrite Eb; apply in_or_app; right; now left|exact E]. }
+    rewrite Hend.
+    assert (Hl : lstrip_ch ch_dot name = name).
+    { unfold name. destruct (ok_comp_props c0 (H c0 ltac:(now left))) as [Hc0 [Hd0 _]].
+      destruct c0 as [|a t]; [congruence|]. rewrite join_dot_cons by exact Hr. cbn [app lstrip_ch].
+      destruct (Z.eqb_spec a ch_dot) as [E|_]; [exfalso; apply (Hd0 a); [now left|exact E]|reflexivity]. }
+    rewrite Hl. unfold name. rewrite split_on_join by (discriminate || exact H). reflexivity.
+Qed.
+
+Lemma snoc_cases {A} (l : list A) : l = [] \/ exists pre a, l = pre ++ [a].
+Proof. destruct l as [|x l]; [now left|]. right. destruct (@exists_last _ (x :: l) ltac:(discriminate)) as [pre [a E]]. now exists pre, a. Qed.
+
+Lemma last_n_two {A} (pre : list A) a b : last_n 2 (pre ++ [a; b]) = [a; b].
+Proof.
+  unfold last_n. rewrite app_length. cbn [length]. replace (length pre + 2 - 2)%nat with (length pre) by lia.
+  rewrite skipn_app, skipn_all, Nat.sub_diag. reflexivity.
+Qed.
+
+Lemma last_n_one {A} (a : A) : last_n 2 [a] = [a].
+Proof. reflexivity. Qed.
+
+Definition lower_is (s : str) : Prop := ascii_lower s = s.
+
+(** uncompressed: the format is the last suffix (lower-cased), for EVERY dotted stem *)
+Lemma gfs_plain st f : st <> [] -> ok_comps (st ++ [f]) -> mem_str (ascii_lower f) compression_suffixes = false ->
+  get_format_suffixes (join_dot (st ++ [f])) = (Some (ascii_lower f), None).
+Proof.
+  intros Hst H Hnc. destruct st as [|c0 st']; [congruence|]. cbn [app] in *.
+  destruct (suffixes_of_name c0 (st' ++ [f]) H ltac:(destruct st'; discriminate)) as [E1 [E2 E3]].
+  unfold get_format_suffixes. rewrite E1, E3. destruct (path_suffix (join_dot (c0 :: st' ++ [f]))) as [|s0 s1]; [congruence|].
+  rewrite map_app. cbn [map].
+  destruct (snoc_cases st') as [->|[pre [a ->]]].
+  - cbn [map app]. rewrite last_n_one. cbn [map tl last]. rewrite Hnc. reflexivity.
+  - rewrite map_app. cbn [map]. rewrite <- app_assoc. cbn [app]. rewrite last_n_two. cbn [map tl last]. rewrite Hnc. reflexivity.
+Qed.
+
+(** compressed: the compression is the last suffix, the format the one before it, for EVERY dotted stem *)
+Lemma gfs_compressed st f cmp : st <> [] -> ok_comps (st ++ [f; cmp]) ->
+  mem_str (ascii_lower cmp) compression_suffixes = true ->
+  get_format_suffixes (join_dot (st ++ [f; cmp])) = (Some (ascii_lower f), Some (ascii_lower cmp)).
+Proof.
+  intros Hst H Hc. destruct st as [|c0 st']; [congruence|]. cbn [app] in *.
+  destruct (suffixes_of_name c0 (st' ++ [f; cmp]) H ltac:(destruct st'; discriminate)) as [E1 [E2 E3]].
+  unfold get_format_suffixes. rewrite E1, E3. destruct (path_suffix (join_dot (c0 :: st' ++ [f; cmp]))) as [|s0 s1]; [congruence|].
+  rewrite map_app. cbn [map]. rewrite last_n_two. cbn [map tl last]. rewrite Hc. reflexivity.
+Qed.
+
+(** a name that is only stem + compression suffix has no format *)
+Lemma gfs_only_compression c0 cmp : ok_comps [c0; cmp] -> mem_str (ascii_lower cmp) compression_suffixes = true ->
+  get_format_suffixes (join_dot [c0; cmp]) = (None, Some (ascii_lower cmp)).
+Proof.
+  intros H Hc. destruct (suffixes_of_name c0 [cmp] H ltac:(discriminate)) as [E1 [E2 E3]].
+  unfold get_format_suffixes. rewrite E1, E3. destruct (path_suffix (join_dot [c0; cmp])) as [|s0 s1]; [congruence|].
+  cbn [map]. rewrite last_n_one. cbn [map tl last]. rewrite Hc. reflexivity.
+Qed.
+
+(** "ENSG00000012048.23.fasta.gz" *)
+Example gfs_ex :
+  get_format_suffixes [69;78;83;71;48;48;48;48;48;48;49;50;48;52;56;46;50;51;46;102;97;115;116;97;46;103;122]
+  = (Some [102;97;115;116;97], Some [103;122]).
+Proof. reflexivity. Qed.
